@@ -5,12 +5,15 @@ pub mod gen;
 #[macro_use]
 pub mod macros;
 
+pub mod lut_dump;
 pub mod c03;
+pub mod c05;
 pub mod c06;
 
 pub fn registry() -> Vec<&'static macros::Entry> {
     let mut v = Vec::new();
     v.extend(c03::registry());
+    v.extend(c05::registry());
     v.extend(c06::registry());
     v
 }
